@@ -947,12 +947,85 @@ def run_tx_case(case, ctx):
                 if "tx" in built and built["tx"].cds is not None:
                     judge_cds_chunk(ctx, "tx.cds", label, {n: ctx.call(f) for n, f in _cds_chunk_questions(lambda: built["tx"].cds)}, M, cs, ce,
                                     "after-chromosome-level")
+        # ---- provenance: the same objects arriving on this chunk by another route -------------------------------------------------------
+        if widx % 2 == 0:
+            check_provenance(ctx, label, case, built, ts, fs, genome, wins, widx, chunk_p, exons, strand, M if (coding and model_ok) else None, ecut)
         # ---- history: the chromosome-level answers once more, AFTER every chunk-level accessor above was touched on the same objects ----
         for k, o in built.items():
             compare_answers(ctx, k, label, WA[mode][k], _answers(ctx, k, o, scan_wins if k == "cds" else ()), (cs, ce), mode, history="after-chunk-level")
         # ---- the same window as a chunk declared on the MINUS strand of the chromosome --------------------------------------------
         if widx % 3 == 1:
             check_minus_chunk(ctx, label, ts, fs, genome, cs, ce, exons, strand, M if (coding and model_ok) else None, WA[mode], mode, scan_wins)
+
+
+def check_provenance(ctx, label, case, built, ts, fs, genome, wins, widx, chunk_p, exons, strand, M, ecut):
+    """(a) an object built on ANOTHER chunk of the same chromosome (the next window of this case; it may miss the object altogether) and then
+    lifted onto this chunk with liftover_to_parent_or_seq_chunk_parent answers like the object built on this chunk directly;
+    (b) when this chunk holds the whole feature: the chunk-relative location obtained by reverse_strand() from an opposite-strand twin (the same
+    location as the literal one) fed to from_chunk_relative_location gives the feature / CDS of the model."""
+    cs, ce = wins[widx]
+    w = [cs, ce]
+    ocs, oce = wins[(widx + 1) % len(wins)]
+    if (ocs, oce) != (cs, ce):
+        other_p = _parent(genome, (ocs, oce))
+        for k, mk in (("tx", lambda: GG.build_transcript(ts, other_p, "chr1")), ("feature", lambda: GG.build_feature(fs, other_p, "chr1"))):
+            if k not in built:
+                continue
+            src, e0 = ctx.call(mk)
+            if e0 is not None:
+                continue      # judged where that window is the current one
+            o, e = ctx.call(src.liftover_to_parent_or_seq_chunk_parent, chunk_p)
+            if e is not None:
+                _chk(ctx, "chunk.location", False, key=(k, "relift-from-other-chunk", "raised", type(e).__name__), label=label, window=w, from_window=[ocs, oce],
+                     exc=_exc(e))
+                continue
+            _chk(ctx, "chunk.location", o is not src or (ocs, oce) == (cs, ce), key=(k, "relift-from-other-chunk", "returned-the-source-object"), label=label,
+                 window=w, from_window=[ocs, oce])
+            check_location(ctx, k, label + ":relifted", o, exons, strand, cs, ce)
+            check_sequences(ctx, k, label + ":relifted", o, exons, strand, genome, cs, ce)
+            a, b = ctx.call(o.to_dict), ctx.call(built[k].to_dict)
+            _chk(ctx, "twin.chromosome-answers", a[1] is None and b[1] is None and a[0] == b[0], key=(k, "to_dict", "relifted-vs-built-here"), label=label,
+                 window=w, from_window=[ocs, oce], diff=_dict_diff(a[0], b[0])[:4] if (a[1] is None and b[1] is None) else None, exc=_exc(a[1] or b[1]))
+    def spaced(bl):      # lifting a chunk-relative location merges abutting blocks: only layouts with a gap between all blocks have one answer
+        bl = sorted(tuple(b) for b in bl)
+        return all(b[1] > b[0] for b in bl) and all(bl[j + 1][0] > bl[j][1] for j in range(len(bl) - 1))
+
+    if ecut[0] != "whole" or "feature" not in built or strand not in "+-" or not spaced(exons):
+        return
+    from inscripta.biocantor.gene.feature import FeatureInterval
+    from inscripta.biocantor.gene.cds import CDSInterval
+
+    opp = {"+": "-", "-": "+"}[strand]
+    twin, e = ctx.call(GG.build_feature, dict(fs, strand=opp, guid=None), chunk_p, "chr1")
+    if e is not None:
+        return
+    for how, derive in (("reverse_strand", lambda: twin.chunk_relative_location.reverse_strand()),
+                        ("reset_strand", lambda: twin.chunk_relative_location.reset_strand(GG._strand(strand)))):
+        loc, e = ctx.call(derive)
+        if e is not None:
+            _chk(ctx, "chunk.location", False, key=("feature", "derived-location", how, "raised"), label=label, window=w, exc=_exc(e))
+            continue
+        o, e = ctx.call(FeatureInterval.from_chunk_relative_location, loc)
+        if e is not None:
+            _chk(ctx, "chunk.location", False, key=("feature", "from-derived-location", how, "raised"), label=label, window=w, exc=_exc(e))
+            continue
+        check_location(ctx, "feature", label + ":from-" + how, o, exons, strand, cs, ce)
+        check_sequences(ctx, "feature", label + ":from-" + how, o, exons, strand, genome, cs, ce)
+        r, e = ctx.call(lambda: (sorted(_blocks(o.chromosome_location)), o.chromosome_location.strand.to_symbol()))
+        _chk(ctx, "twin.chromosome-answers", e is None and r == (sorted(tuple(b) for b in exons), strand), key=("feature", "chromosome_location", "from-" + how),
+             label=label, window=w, got=r, want=[sorted(exons), strand], exc=_exc(e))
+    if M is not None and _cut_class(M.blocks, strand, cs, ce)[0] == "whole" and "cds" in built and spaced(M.blocks):
+        ctwin, e = ctx.call(GG.build_feature, dict(fs, blocks=[list(b) for b in M.blocks], strand=opp, guid=None), chunk_p, "chr1")
+        if e is None:
+            loc, e = ctx.call(lambda: ctwin.chunk_relative_location.reverse_strand())
+            o, e = ctx.call(CDSInterval.from_chunk_relative_location, loc, GG._frames(ts["frames"])) if e is None else (None, e)
+            if e is not None:
+                _chk(ctx, "chunk.location", False, key=("cds", "from-derived-location", "raised"), label=label, window=w, exc=_exc(e))
+            else:
+                check_location(ctx, "cds", label + ":from-reverse_strand", o, M.blocks, strand, cs, ce)
+                a, b = ctx.call(lambda: (str(o.extract_sequence()), str(o.translate()))), ctx.call(lambda: (str(built["cds"].extract_sequence()), str(built["cds"].translate())))
+                _chk(ctx, "twin.chromosome-answers", (a[1] is None) == (b[1] is None) and a[0] == b[0], key=("cds", "sequence-translation", "from-reverse_strand"),
+                     label=label, window=w, got=a[0], want=b[0], exc=_exc(a[1] or b[1]))
 
 
 def _minus_chunk_parent(genome, cs, ce):
